@@ -154,6 +154,24 @@ class Engine(Executor):
             return [(s, s.alloc(ListBox(v.items)))]
         raise Unsupported("list() of %s" % type(v).__name__, node)
 
+    def bi_max(self, args, kwargs, s, node, want_max=True):
+        if len(args) != 2 or not all(isinstance(a, Z) for a in args) or kwargs:
+            raise Unsupported("max/min with other than two scalars", node)
+        a, b = args
+        out = []
+        ok = z3.Or(z3.And(self.isk(a, "num"), self.isk(b, "num")), z3.And(self.isk(a, "str"), self.isk(b, "str")))
+        for (s2, x) in self.need(s, ok, "TypeError", node, "max()/min() of comparable values"):
+            if x is not None:
+                out.append((s2, x))
+            else:
+                gt = V.py_lt(a.t, b.t)
+                val = z3.If(gt, b.t, a.t) if want_max else z3.If(V.py_lt(b.t, a.t), b.t, a.t)
+                out.append((s2, Z(val, a.hint if a.hint == b.hint else None)))
+        return out
+
+    def bi_min(self, args, kwargs, s, node):
+        return self.bi_max(args, kwargs, s, node, want_max=False)
+
     def bi_bool(self, args, kwargs, s, node):
         return [(s, Z(V.VBool(self.truth(args[0], s, node)), "bool"))]
 
@@ -333,7 +351,7 @@ class Engine(Executor):
         str_methods = {"startswith", "endswith", "lower", "upper", "title", "strip", "lstrip", "rstrip", "count",
                        "index", "find", "format", "join", "replace", "split", "isdigit", "isnumeric"}
         if meth not in str_methods:
-            raise Unsupported("method .%s on a scalar" % meth, node)
+            return self.object_method(recv, meth, args, kwargs, s, node)
         for (s2, x) in self.str_need(recv, s, node, meth):
             if x is not None:
                 out.append((s2, x))
@@ -425,6 +443,23 @@ class Engine(Executor):
                 raise Unsupported("str.%s" % meth, node)
         return out
 
+    def object_method(self, recv, meth, args, kwargs, s, node):
+        """recv.meth(...) where recv is a heap reference: resolved to the unique repo class defining `meth`."""
+        owners = [c for c in self.classes_with_attr(meth) if self.P.find_class(c) is not None and meth in self.P.find_class(c).methods]
+        if isinstance(recv.hint, tuple) and recv.hint[0] == "obj" and recv.hint[1] in owners:
+            owners = [recv.hint[1]]
+        if len(owners) != 1:
+            raise Unsupported("method .%s on a value of unknown class (candidates: %s)" % (meth, owners), node)
+        ci = self.P.find_class(owners[0])
+        fi = ci.methods[meth]
+        out = []
+        for (s2, x) in self.need(s, V.isinstance_of(recv.t, ci.name), "AttributeError", node, "receiver of .%s() is a %s" % (meth, ci.name)):
+            if x is not None:
+                out.append((s2, x))
+            else:
+                out.extend(self.call_function(fi, [recv] + list(args), kwargs, s2, node))
+        return out
+
     def str_join(self, sep, a, s, node):
         if isinstance(a, RefV):
             box = s.store[a.ref]
@@ -481,7 +516,14 @@ class Engine(Executor):
                     raise Unsupported("List[str] element type not provable", node)
                 box.term = z3.Concat(box.term, z3.Unit(V.get_s(v.t)))
             else:
-                box.term = z3.Concat(box.term, z3.Unit(self.to_z(v, s, node).t))
+                zv = self.to_z(v, s, node)
+                if box.elem_ann is not None:
+                    cst, _h = self.constraint_of_annotation(box.elem_ann, zv.t)
+                    if cst is not None:
+                        ob = self.prove(s, cst, "K4", node, "list keeps its element type %s" % ast.unparse(box.elem_ann), clause="elem-type")
+                        if ob.status != "unsat":
+                            box.elem_ann = None
+                box.term = z3.Concat(box.term, z3.Unit(zv.t))
             return [(s, Z(V.VNone))]
         if meth == "pop":
             if args:
@@ -645,19 +687,77 @@ class Engine(Executor):
                 self.prove(s2, b, "K5", node, "call-pre of %s: %s" % (fi.name, r), clause=r)
         if pre_only:
             return []
+        if c.opts.get("event"):
+            saved_env, saved_fi = s.env, self.cur_fi
+            self.cur_fi = self.contract_fi
+            self.pure += 1
+            self.in_spec += 1
+            try:
+                s.env = dict(env)
+                r = self.ev(ast.parse(c.opts["event"], mode="eval").body, s)
+            finally:
+                self.pure -= 1
+                self.in_spec -= 1
+                self.cur_fi = saved_fi
+                s.env = saved_env
+            if len(r) != 1 or is_exc(r[0][1]):
+                raise Unsupported("event expression of %s" % c.name, node)
+            s.ghost = dict(s.ghost)
+            s.ghost["events"] = list(s.ghost.get("events", [])) + [r[0][1]]
         # result
         ret_ann = c.opts.get("returns")
-        if ret_ann and not c.pure_fn:
+        if c.opts.get("pure") and not c.pure_fn:
+            # deterministic, effect-free callee: result is an uninterpreted function of its arguments
+            names_ = [a.arg for a in fi.node.args.args]
+            zs = [self.to_z(env[n_], s, node).t for n_ in names_]
+            fn = z3.Function("pure_" + fi.qualname.replace(".", "_"), *([Val] * len(zs) + [Val]))
+            res = Z(fn(*zs))
+            if ret_ann:
+                cst, h = self.constraint_of_annotation(ast.parse(ret_ann, mode="eval").body, res.t)
+                if cst is not None:
+                    s.assume(cst)
+                res.hint = h
+        elif ret_ann and not c.pure_fn:
             res = self.fresh_of_annotation(ret_ann, "ret_%s_%d" % (fi.name, len(self.obligations)), s, node)
         elif c.pure_fn:
             fn = getattr(V, c.pure_fn)
             zs = [self.to_z(env[a.arg], s, node).t for a in fi.node.args.args if a.arg != "self"]
             res = Z(fn(*zs))
-        if not ret_ann and not c.pure_fn:
+        if not ret_ann and not c.pure_fn and not c.opts.get("pure"):
             res = Z(V.fresh("ret_" + fi.name))
         out = []
         states = [s]
         env2 = dict(env)
+        # the callee's ghost names are evaluated in the pre-state of the call
+        for gname, gexpr in c.ghost.items():
+            saved_env, saved_fi = s.env, self.cur_fi
+            self.cur_fi = self.contract_fi
+            self.pure += 1
+            self.in_spec += 1
+            try:
+                s.env = dict(env2)
+                r = self.ev(ast.parse(gexpr, mode="eval").body, s)
+            finally:
+                self.pure -= 1
+                self.in_spec -= 1
+                self.cur_fi = saved_fi
+                s.env = saved_env
+            if len(r) != 1 or is_exc(r[0][1]):
+                raise Unsupported("ghost %s of %s at a call site" % (gname, c.name), node)
+            env2[gname] = r[0][1]
+        # frame: objects the callee may modify are havoced in the caller's view
+        for pname in (c.modifies or []):
+            v = env.get(pname)
+            if isinstance(v, RefV):
+                box = s.store[v.ref]
+                if isinstance(box, SeqBox):
+                    box.term = V.fresh("mod_" + pname, V.SeqStr if box.elem == "str" else V.SeqVal)
+                elif isinstance(box, ListBox):
+                    s.store[v.ref] = SeqBox(V.fresh("mod_" + pname, V.SeqStr if box.elem == "str" else V.SeqVal), box.elem, box.kind)
+                elif isinstance(box, AbsBox):
+                    ln = V.fresh("mod_%s_len" % pname, V.I)
+                    s.assume(ln >= 0)
+                    box.length = ln
         env2["result"] = res
         for en in c.ensures:
             nxt = []
@@ -700,14 +800,104 @@ class Engine(Executor):
         return out
 
     def ev_iter(self, e, st):
-        """Evaluate a loop iterable; enumerate()/range() become descriptors."""
+        """Evaluate a loop iterable; enumerate()/range()/reversed()/.items() become descriptors."""
         if isinstance(e, ast.Call) and isinstance(e.func, ast.Name) and e.func.id in ("enumerate", "range", "reversed") \
                 and e.func.id not in st.env:
+            if e.func.id == "reversed" and len(e.args) == 1:
+                return [(s, v if is_exc(v) else ("reversed", [v])) for (s, v) in self.ev_iter(e.args[0], st)]
+            if e.func.id == "enumerate":
+                out = []
+                for (s, v) in self.ev_iter(e.args[0], st):
+                    if is_exc(v):
+                        out.append((s, v))
+                        continue
+                    for (s2, rest) in self.ev_list(e.args[1:], s):
+                        out.append((s2, rest if is_exc(rest) else ("enumerate", [v] + rest)))
+                return out
             out = []
             for (s, vals) in self.ev_list(e.args, st):
                 out.append((s, vals if is_exc(vals) else (e.func.id, vals)))
             return out
+        if isinstance(e, ast.Call) and isinstance(e.func, ast.Attribute) and e.func.attr in ("items", "keys", "values") and not e.args:
+            out = []
+            for (s, v) in self.ev(e.func.value, st):
+                out.append((s, v if is_exc(v) else ("dict." + e.func.attr, [v])))
+            return out
         return self.ev(e, st)
+
+    def iter_desc(self, it, s, stmt, tag):
+        """-> (count: z3 Int, elem: k -> SV, facts: [z3 Bool]) for a symbolic iterable (fixed at loop entry)."""
+        if isinstance(it, tuple):
+            kind, a = it
+            if kind == "enumerate":
+                n, el, facts = self.iter_desc(a[0], s, stmt, tag)
+                start = V.to_int(a[1].t) if len(a) > 1 else z3.IntVal(0)
+                return n, (lambda k, s_: PyTuple([Z(V.VInt(k + start), "int"), el(k, s_)])), facts
+            if kind == "range":
+                if len(a) == 3:
+                    raise Unsupported("range with step", stmt)
+                lo = V.to_int(a[0].t) if len(a) >= 2 else z3.IntVal(0)
+                hi = V.to_int(a[1].t) if len(a) >= 2 else V.to_int(a[0].t)
+                return z3.If(hi > lo, hi - lo, 0), (lambda k, s_: Z(V.VInt(lo + k), "int")), []
+            if kind == "reversed":
+                n, el, facts = self.iter_desc(a[0], s, stmt, tag)
+                return n, (lambda k, s_: el(n - 1 - k, s_)), facts
+            if kind.startswith("dict."):
+                d = a[0]
+                if not isinstance(d, Z):
+                    raise Unsupported("%s of a local object" % kind, stmt)
+                rid = V.get_rid(d.t)
+                n = V.map_len(rid)
+                what = kind[5:]
+
+                def el(k, s_, rid=rid, what=what):
+                    key = V.map_key_at(rid, k)
+                    s_.assume(V.map_has(rid, key))
+                    if what == "keys":
+                        return Z(key)
+                    if what == "values":
+                        return Z(V.map_get(rid, key))
+                    return PyTuple([Z(key), Z(V.map_get(rid, key))])
+                need = z3.And(V.is_Ref(d.t), V.kind_of(rid) == V.K_DICT)
+                return n, el, [n >= 0, ("need", need, "AttributeError", ".%s() of a dict" % what)]
+            raise Unsupported("iterable %s" % kind, stmt)
+        if isinstance(it, Z):
+            t = it.t
+            if self.def_str(it, s):
+                sv = V.get_s(t)
+                return z3.Length(sv), (lambda k, s_: Z(V.VStr(z3.SubString(sv, k, 1)), "str")), []
+            rid = V.get_rid(t)
+            isdict = V.kind_of(rid) == V.K_DICT
+            n = z3.If(isdict, V.map_len(rid), V.seq_len(rid))
+            ok = z3.Or(V.is_Str(t), z3.And(V.is_Ref(t), z3.Or(
+                [V.kind_of(rid) == V.kind_id(k) for k in ("list", "dict", "set", "tuple", "CommentedSet", "deque")])))
+
+            def el(k, s_, t=t, rid=rid, isdict=isdict):
+                return Z(z3.If(V.is_Str(t), V.VStr(z3.SubString(V.get_s(t), k, 1)),
+                               z3.If(isdict, V.map_key_at(rid, k), V.seq_item(rid, k))))
+            n2 = z3.If(V.is_Str(t), z3.Length(V.get_s(t)), n)
+            return n2, el, [V.seq_len(rid) >= 0, V.map_len(rid) >= 0, ("need", ok, "TypeError", "iteration over an iterable value")]
+        if isinstance(it, RefV):
+            box = s.store[it.ref]
+            if isinstance(box, SeqBox):
+                term = box.term
+                if box.elem == "str":
+                    return z3.Length(term), (lambda k, s_: Z(V.VStr(term[k]), "str")), []
+                ann = getattr(box, "elem_ann", None)
+
+                def el(k, s_, term=term, ann=ann):
+                    z = Z(term[k])
+                    if ann is not None:
+                        c, h = self.constraint_of_annotation(ann, z.t)
+                        if c is not None:
+                            s_.assume(c)
+                        z.hint = h
+                    return z
+                return z3.Length(term), el, []
+            if isinstance(box, AbsBox) and box.elem_ann is not None and box.length is not None:
+                ann = box.elem_ann
+                return box.length, (lambda k, s_: self.fresh_of_annotation(ann, "elem_%s" % tag, s_, stmt)), []
+        raise Unsupported("iteration over %s" % type(it).__name__, stmt)
 
     def unroll(self, stmt, items, st):
         results = []
@@ -761,7 +951,7 @@ class Engine(Executor):
                         st.assume(ln >= 0)
                         st.store[v.ref] = AbsBox(box.kind, ln, None)
                 elif isinstance(box, SeqBox):
-                    st.store[v.ref] = SeqBox(z3.Const("loop_%s!%s" % (n, tag), V.SeqStr if box.elem == "str" else V.SeqVal), box.elem, box.kind)
+                    st.store[v.ref] = SeqBox(z3.Const("loop_%s!%s" % (n, tag), V.SeqStr if box.elem == "str" else V.SeqVal), box.elem, box.kind, box.elem_ann)
                 elif isinstance(box, AbsBox):
                     ln = z3.Int("loop_%s_len!%s" % (n, tag))
                     st.assume(ln >= 0)
@@ -790,53 +980,13 @@ class Engine(Executor):
                         raise Unsupported("non-scalar in List[str]", stmt)
                     self.prove(st, V.is_Str(it.t), "K4", stmt, "List[str] %s holds str at loop entry" % n, clause="elem-type")
 
-    def bind_loop_var(self, stmt, it, s, tag):
-        """Bind the loop target to an arbitrary element of the iterable -> list of states (or (state,outcome))."""
-        def fresh_elem_of(x, k):
-            if isinstance(x, Z):
-                t = x.t
-                if self.def_str(x, s):
-                    sv = V.get_s(t)
-                    s.assume(z3.And(k >= 0, k < z3.Length(sv)))
-                    return Z(V.VStr(z3.SubString(sv, k, 1)), "str")
-                raise Unsupported("iteration over a heap value", stmt)
-            if isinstance(x, RefV):
-                box = s.store[x.ref]
-                if isinstance(box, SeqBox):
-                    s.assume(z3.And(k >= 0, k < z3.Length(box.term)))
-                    el = box.term[k]
-                    return Z(V.VStr(el), "str") if box.elem == "str" else Z(el)
-                if isinstance(box, AbsBox) and box.elem_ann is not None:
-                    if box.length is not None:
-                        s.assume(z3.And(k >= 0, k < box.length))
-                    return self.fresh_of_annotation(box.elem_ann, "elem_%s" % tag, s, stmt)
-            raise Unsupported("iteration over %s" % type(x).__name__, stmt)
-        k = z3.Int("loop_k!%s" % tag)
-        if isinstance(it, tuple):
-            kind, a = it
-            if kind == "enumerate":
-                elem = fresh_elem_of(a[0], k)
-                start = a[1] if len(a) > 1 else Z(V.mk(0))
-                item = PyTuple([Z(V.VInt(k + V.to_int(start.t)), "int"), elem])
-            elif kind == "range":
-                lo = V.to_int(a[0].t) if len(a) >= 2 else z3.IntVal(0)
-                hi = V.to_int(a[1].t) if len(a) >= 2 else V.to_int(a[0].t)
-                if len(a) == 3:
-                    raise Unsupported("range with step", stmt)
-                s.assume(z3.And(k >= lo, k < hi))
-                item = Z(V.VInt(k), "int")
-            else:
-                raise Unsupported("reversed()", stmt)
-        else:
-            item = fresh_elem_of(it, k)
-        return self.assign(stmt.target, item, s, stmt)
-
     def loop_by_invariant(self, stmt, it, st):
         key = self.loop_key(stmt)
         spec = self.contract.loops.get(key, {}) if self.cur_fi is self.fi else {}
         if self.cur_fi is self.fi:
             self.loops_seen.add(key)
         invs = list(spec.get("invariant", []))
+        body_ens = list(spec.get("body_ensures", []))
         body_names, body_attrs = assigned_names(stmt.body)
         tgt_names, _ = assigned_names([ast.Assign(targets=[stmt.target], value=ast.Constant(value=None))])
         names = body_names | tgt_names
@@ -846,27 +996,53 @@ class Engine(Executor):
             if n == itname or itname.startswith("enumerate(%s)" % n):
                 raise Unsupported("loop body mutates its iterable %s" % n, stmt)
         self.list_elem_ok(st, names, stmt)
-        entry_env = dict(st.env)
-        # K4 (establish)
-        for inv in invs:
-            for (s2, b) in self.eval_clause(inv, st.fork(), st.env, stmt):
-                self.prove(s2, b, "K4", stmt, "invariant holds at loop entry: %s" % inv, clause="init:" + inv)
         self.loop_count += 1
         tag = "L%d" % self.loop_count
+        # the iterable is fixed at loop entry
+        count, elem, facts = self.iter_desc(it, st, stmt, tag)
+        for f in facts:
+            if isinstance(f, tuple) and f[0] == "need":
+                outs = self.need(st, f[1], f[2], stmt, f[3])
+                bad = [(s_, x) for (s_, x) in outs if x is not None]
+                if bad:
+                    good = [s_ for (s_, x) in outs if x is None]
+                    res = [(s_, ("raise", x)) for (s_, x) in bad]
+                    if not good:
+                        return res
+                    rest = self.loop_by_invariant_tail(stmt, it, good[0], key, spec, invs, body_ens, names, body_attrs, tag, count, elem)
+                    return res + rest
+            else:
+                st.assume(f)
+        return self.loop_by_invariant_tail(stmt, it, st, key, spec, invs, body_ens, names, body_attrs, tag, count, elem)
+
+    def loop_by_invariant_tail(self, stmt, it, st, key, spec, invs, body_ens, names, body_attrs, tag, count, elem):
+        entry_env = dict(st.env)
+
+        def with_iters(env, val):
+            e2 = dict(env)
+            e2["iters"] = Z(V.VInt(val), "int")
+            return e2
+        # K4 (establish)
+        for inv in invs:
+            for (s2, b) in self.eval_clause(inv, st.fork(), with_iters(st.env, z3.IntVal(0)), stmt):
+                self.prove(s2, b, "K4", stmt, "invariant holds at loop entry: %s" % inv, clause="init:" + inv)
         dropped = set()
         new_names = sorted(n for n in names if n not in st.env)
         new_types = {n: {"str": V.is_Str, "int": V.is_Int, "bool": V.is_Bool} for n in new_names}
+        k = z3.Int("loop_k!%s" % tag)
+        has_yield = any(isinstance(x, ast.Yield) for b_ in stmt.body for x in ast.walk(b_))
         while True:
             mark_obl, mark_pend = len(self.obligations), len(self.pending)
             body = st.fork()
             cands = self.havoc(body, names, body_attrs, tag)
-            cands = [(n, a) for (n, a) in cands if n not in dropped]
+            cands = [(n, a_) for (n, a_) in cands if n not in dropped]
             for n in dropped:
                 if isinstance(body.env.get(n), Z):
                     body.env[n] = Z(body.env[n].t)          # no static hint for a variable whose type is not stable
-            if st.out or self.fi.is_generator:
-                body.out = [("havoc", tag)] if (st.out or any(isinstance(x, (ast.Yield,)) for b in stmt.body for x in ast.walk(b))) else []
-            # assume type-stability candidates and the written invariants for an arbitrary iteration
+            if st.out or has_yield:
+                body.out = [("havoc", tag)]
+            body.ghost = dict(body.ghost)
+            body.ghost["events"] = []
             for (n, mk) in cands:
                 body.assume(mk(body.env[n].t))
             # entry check of the candidates (drop on failure: annotations are hints, not facts)
@@ -878,26 +1054,42 @@ class Engine(Executor):
                     r, _m = self.solver.check(st.pc + [z3.Not(c)])
                     if r != "unsat":
                         bad.add(n)
+            body.assume(z3.And(k >= 0, k < count))
             states = [body]
             for inv in invs:
                 nxt = []
                 for b0 in states:
-                    for (s2, b) in self.eval_clause(inv, b0, b0.env, stmt):
+                    for (s2, b) in self.eval_clause(inv, b0, with_iters(b0.env, k), stmt):
                         s2.assume(b)
                         nxt.append(s2)
                 states = nxt
-            after_template = [x.fork() for x in states]
             results = []
             for b0 in states:
-                bound = self.bind_loop_var(stmt, it, b0, tag)
+                item = elem(k, b0)
+                bound = self.assign(stmt.target, item, b0, stmt)
                 for x in bound:
                     if isinstance(x, tuple):
                         results.append(x)
                         continue
                     if not self.solver.feasible(x.pc):
                         continue
+                    x.flags["iter_env"] = dict(x.env)
+                    n_out0 = len(x.out)
                     for (s2, oc) in self.exec_block(stmt.body, x):
-                        if oc is None or oc[0] == "continue":
+                        ends_iteration = oc is None or oc[0] == "continue"
+                        if ends_iteration or oc[0] == "break":
+                            # per-iteration post-conditions over what this iteration yielded / which calls it made
+                            if body_ens:
+                                env_e = with_iters(s2.env, k)
+                                for nm, val in x.flags["iter_env"].items():
+                                    env_e.setdefault(nm, val)
+                                env_e["yielded"] = PyTuple([v for (v, _l) in s2.out[n_out0:]])
+                                env_e["events"] = PyTuple(list(s2.ghost.get("events", [])))
+                                env_e["exited"] = Z(V.mk(not ends_iteration), "bool")
+                                for be in body_ens:
+                                    for (s3, b) in self.eval_clause(be, s2.fork(), env_e, stmt):
+                                        self.prove(s3, b, "K2", stmt, "iteration post-condition: %s" % be, clause="iter:" + be)
+                        if ends_iteration:
                             for n in new_names:
                                 v = s2.env.get(n)
                                 for tn in list(new_types[n]):
@@ -914,9 +1106,10 @@ class Engine(Executor):
                                 else:
                                     bad.add(n)
                             for inv in invs:
-                                for (s3, b) in self.eval_clause(inv, s2.fork(), s2.env, stmt):
+                                for (s3, b) in self.eval_clause(inv, s2.fork(), with_iters(s2.env, k + 1), stmt):
                                     self.prove(s3, b, "K4", stmt, "invariant preserved by the loop body: %s" % inv, clause="step:" + inv)
                         elif oc[0] == "break":
+                            s2.ghost = dict(st.ghost)
                             results.append((s2, None))
                         else:
                             results.append((s2, oc))
@@ -928,22 +1121,38 @@ class Engine(Executor):
                 self.notes.append("loop %r: annotation-derived type invariant dropped for %s" % (key, sorted(bad)))
                 continue
             break
-        # state after the loop: an arbitrary number of iterations happened
+        # state after the loop: every element was visited (iters == count)
         later_reads = self.names_read_after(stmt)
         need_nonempty = [n for n in new_names if n in later_reads]
         if need_nonempty:
             # a variable first bound inside the loop is read afterwards: the loop must run at least once
-            nonempty = self.iter_nonempty(it, st)
-            self.prove(st, nonempty, "K1", stmt, "loop runs at least once (%s is first bound inside it and read later)" % ", ".join(need_nonempty), clause="UnboundLocalError")
-        for a in after_template:
+            self.prove(st, count > 0, "K1", stmt, "loop runs at least once (%s is first bound inside it and read later)" % ", ".join(need_nonempty), clause="UnboundLocalError")
+        fin = st.fork()
+        fin_cands = self.havoc(fin, names, body_attrs, tag + "x")
+        for (n, mk) in fin_cands:
+            if n not in dropped and isinstance(fin.env.get(n), Z):
+                fin.assume(mk(fin.env[n].t))
+            elif isinstance(fin.env.get(n), Z):
+                fin.env[n] = Z(fin.env[n].t)
+        if st.out or has_yield:
+            fin.out = [("havoc", tag)]
+        fins = [fin]
+        for inv in invs:
+            nxt = []
+            for f0 in fins:
+                for (s2, b) in self.eval_clause(inv, f0, with_iters(f0.env, count), stmt):
+                    s2.assume(b)
+                    nxt.append(s2)
+            fins = nxt
+        for f0 in fins:
             for n in new_names:
-                t = z3.Const("loop_%s!%s" % (n, tag), Val)
+                t = z3.Const("loop_%s!%sx" % (n, tag), Val)
                 hint = None
                 for tn, tester in new_types[n].items():
-                    a.assume(tester(t))
+                    f0.assume(tester(t))
                     hint = tn
-                a.env[n] = Z(t, hint)
-            results.append((a, None))
+                f0.env[n] = Z(t, hint)
+            results.append((f0, None))
         return results
 
     def names_read_after(self, loop_stmt):
@@ -954,23 +1163,6 @@ class Engine(Executor):
             if isinstance(n, ast.Name) and isinstance(n.ctx, ast.Load) and id(n) not in inside:
                 reads.add(n.id)
         return reads
-
-    def iter_nonempty(self, it, st):
-        if isinstance(it, tuple):
-            kind, a = it
-            if kind == "enumerate":
-                return self.iter_nonempty(a[0], st)
-            if kind == "range":
-                lo = V.to_int(a[0].t) if len(a) >= 2 else z3.IntVal(0)
-                hi = V.to_int(a[1].t) if len(a) >= 2 else V.to_int(a[0].t)
-                return hi > lo
-        if isinstance(it, Z):
-            return z3.And(V.is_Str(it.t), z3.Length(V.get_s(it.t)) > 0)
-        if isinstance(it, RefV) and isinstance(st.store[it.ref], SeqBox):
-            return z3.Length(st.store[it.ref].term) > 0
-        if isinstance(it, RefV) and isinstance(st.store[it.ref], AbsBox) and st.store[it.ref].length is not None:
-            return st.store[it.ref].length > 0
-        return T(False)
 
     # ================================================================ verify one function
     def verify(self):
@@ -1038,6 +1230,26 @@ class Engine(Executor):
         if not c.requires and not any(s0.pc for s0 in states):
             sat_any = True
         vac.status, vac.solver = ("unsat", "z3") if sat_any else ("vacuous", "z3")
+        for gname, gexpr in c.ghost.items():
+            nxt = []
+            for s0 in states:
+                tree = ast.parse(gexpr, mode="eval").body
+                saved = self.cur_fi
+                self.cur_fi = self.contract_fi
+                self.pure += 1
+                self.in_spec += 1
+                try:
+                    rs = self.ev(tree, s0)
+                finally:
+                    self.pure -= 1
+                    self.in_spec -= 1
+                    self.cur_fi = saved
+                for (s2, v) in rs:
+                    if is_exc(v):
+                        raise Unsupported("ghost %s raises" % gname)
+                    s2.env[gname] = v
+                    nxt.append(s2)
+            states = nxt
         finals = []
         for s0 in states:
             entry = dict(s0.env)
@@ -1052,6 +1264,7 @@ class Engine(Executor):
                 res = Z(V.VNone) if oc is None else oc[1]
                 env2 = dict(entry)
                 env2["result"] = res
+                env2["events"] = PyTuple(list(s.ghost.get("events", [])))
                 if fi.is_generator:
                     env2["out"] = PyTuple([v for (v, _ln) in s.out if not isinstance(v, str)]) if not any(v == "havoc" for (v, _l) in s.out) else None
                 if c.opts.get("returns") and isinstance(res, Z):
